@@ -345,6 +345,11 @@ func Invoke(inv Invocation) int {
 	if inv.CacheDir == "" {
 		inv.CacheDir = mg.CacheDir()
 	}
+	// the binary is compiled in inv.Dir and run in inv.WorkDir, so a relative
+	// cache directory must be pinned to the directory mage was started in.
+	if abs, err := filepath.Abs(inv.CacheDir); err == nil {
+		inv.CacheDir = abs
+	}
 
 	files, err := Magefiles(inv.Dir, inv.GOOS, inv.GOARCH, inv.GoCmd, inv.Stderr, inv.UsesMagefiles(), inv.Debug)
 	if err != nil {
